@@ -8,6 +8,7 @@ import Dcg.Proofs.TemplateLex
 import Dcg.Proofs.TemplateCheckLex
 import Dcg.Proofs.TemplateCheckTable
 import Dcg.Proofs.TemplateSites
+import Dcg.Proofs.TemplateLexDoc
 /-
 C10 — text taken from the input ends up as data, never as code.
 Only property theorems live here; helper lemmas are in Dcg/Proofs/Escape.lean.
@@ -150,7 +151,31 @@ lexical-state analysis is an abstract interpretation of the template AST over th
 
 section TemplateLex
 open Dcg.Model.TemplateSyntax Dcg.Model.Template Dcg.Model.TemplateAbs Dcg.Model.TemplateLex
-open Dcg.Proofs.TemplateAbs Dcg.Proofs.TemplateLex
+open Dcg.Proofs.TemplateAbs Dcg.Proofs.TemplateLex Dcg.Proofs.TemplateLexDoc
+
+/-- **A description cannot leave its docstring — for EVERY text, indentation included.** Read
+inside a `\"\"\"` literal, the value `x | escape_docstring | indent(w)` leaves the lexer inside that
+literal with at most two quotes pending (which the template's closing line resolves): the escape
+rules out three quotes in a row and a dangling backslash, and `indent` rewrites only line breaks,
+none of which follows a backslash.  (`docstring_literal_exact` above reads the literal back exactly
+but for the un-indented text; this covers what the templates really write.) -/
+theorem docstring_value_cannot_leave (w : Nat) (x : List Char) :
+    lexAuto.run (.t true) (Dcg.Model.Template.indentStr w (escDoc 0 x)) = LQ.t true ∨
+    lexAuto.run (.t true) (Dcg.Model.Template.indentStr w (escDoc 0 x)) = LQ.t1 true ∨
+    lexAuto.run (.t true) (Dcg.Model.Template.indentStr w (escDoc 0 x)) = LQ.t2 true :=
+  docstring_value_stays_inside w x
+
+/-- the hypothesis of the template theorems: every interpolated value EXCEPT docstring text
+(`… | escape_docstring | indent(w)` at a docstring site, for which nothing is assumed) is lexically
+neutral for the class of its site -/
+def NeutralValues (o : Out) : Prop := ∀ p ∈ o.slots, docSite p.1 = false → LexHyp p.1 p.2
+
+theorem neutralValues_all {ctx : List (String × Val)} {t : List Tpl} {o : Out}
+    (hr : renderTemplate ctx t = .ok o) (h : NeutralValues o) : ∀ p ∈ o.slots, LexHyp p.1 p.2 := by
+  intro p hp
+  cases hd : docSite p.1 with
+  | true => exact lexHyp_of_docSite (Dcg.Proofs.TemplateSlots.renderTemplate_fromEval hr) p hp hd
+  | false => exact h p hp hd
 
 /-- every template lies inside the modelled Jinja fragment (no `unsupported` node) -/
 theorem templates_in_fragment :
@@ -158,8 +183,9 @@ theorem templates_in_fragment :
   Dcg.Proofs.TemplateCheckLex.no_unsupported
 
 /-- **Input text cannot leave its lexical context — for every template and EVERY environment.**
-In any rendering in which each interpolated value is lexically neutral for the class of its site
-(`LexHyp`: identifiers/type hints/repr values are neutral in code state, escaped keys inside
+In any rendering in which each interpolated value other than docstring text is lexically neutral
+for the class of its site (`NeutralValues`; for docstring text nothing is assumed,
+`docstring_value_cannot_leave`) (`LexHyp`: identifiers/type hints/repr values are neutral in code state, escaped keys inside
 `'…'`, escaped docstring text inside a triple-quoted string, comment lines inside a comment),
 the Python lexer ends in code state or in a `#` comment: every literal the template opens is
 closed by the template's own quotes, whatever the environment makes of the `if`/`for` structure.
@@ -167,8 +193,9 @@ That the analysis succeeds also means that at every `{{ … }}` site every lexic
 control flow can produce is one that `Model/Sites.allowed` permits for the site's class. -/
 theorem template_lexically_closed (name : String) (t : List Tpl)
     (ht : Dcg.Gen.TemplateAst.templates.lookup name = some t) (ctx : List (String × Val)) (o : Out)
-    (hr : renderTemplate ctx t = .ok o) (hv : ∀ p ∈ o.slots, LexHyp p.1 p.2) :
+    (hr : renderTemplate ctx t = .ok o) (hv : NeutralValues o) :
     lexGood (lexAuto.run .code o.text) = true := by
+  have hv := neutralValues_all hr hv
   have hc : check lexAuto .code lexGood [] [] t = true := by
     have hall := Dcg.Proofs.TemplateCheckLex.lexCheckAll_ok
     unfold Dcg.Proofs.TemplateCheckLex.lexCheckAll at hall
@@ -189,9 +216,10 @@ of the included Config templates — are covered by this theorem applied to `pyd
 and `pydantic_v2/ConfigDict.jinja2` themselves, which the block includes in code state.) -/
 theorem sites_in_allowed_states (name : String) (t : List Tpl)
     (ht : Dcg.Gen.TemplateAst.templates.lookup name = some t) (ctx : List (String × Val)) (o : Out)
-    (hr : renderTemplate ctx t = .ok o) (hv : ∀ p ∈ o.slots, LexHyp p.1 p.2) :
+    (hr : renderTemplate ctx t = .ok o) (hv : NeutralValues o) :
     ∀ s ∈ o.sites, siteAllowed s.expr (lexAuto.run .code s.before) = true ∧
       ∃ rest, o.text = s.before ++ s.value ++ rest := by
+  have hv := neutralValues_all hr hv
   have hc : check lexAuto .code lexGood [] [] t = true := by
     have hall := Dcg.Proofs.TemplateCheckLex.lexCheckAll_ok
     unfold Dcg.Proofs.TemplateCheckLex.lexCheckAll at hall
@@ -223,8 +251,9 @@ theorem plain_values_lexically_neutral (e : Expr) (v : List Char)
 key that is not an identifier and a described class; all its values satisfy the hypothesis -/
 example : ∃ o, renderTemplate [("class_name", .str "M".toList), ("description", .str "a \"doc\"".toList),
       ("all_fields", .list [.dict [("key", .str "a b".toList), ("type_hint", .str "str".toList)]])]
-      Dcg.Gen.TemplateAst.t_TypedDictFunction = .ok o ∧ o.sites.length = 5 ∧ (∀ p ∈ o.slots, LexHyp p.1 p.2) := by
+      Dcg.Gen.TemplateAst.t_TypedDictFunction = .ok o ∧ o.sites.length = 5 ∧ NeutralValues o := by
   refine ⟨_, rfl, by decide +kernel, ?_⟩
+  suffices h : ∀ p : Expr × List Char, p ∈ _ → LexHyp p.1 p.2 from fun p hp _ => h p hp
   intro p hp
   refine lexHypB_sound ?_
   revert p
